@@ -18,18 +18,25 @@ KeysOf(ins) == {ins[i].k : i \in 1..Len(ins)}
 Tokens(ins, k) ==
     LET sel == SelectSeq(ins, LAMBDA e : e.k = k /\ e.id # 0) IN [i \in 1..Len(sel) |-> sel[i].id]
 
-SeqSet(s) == {s[i] : i \in 1..Len(s)}
+\* all values inserted for key k, empty ones included (id 0), in insertion order
+TokensAll(ins, k) ==
+    LET sel == SelectSeq(ins, LAMBDA e : e.k = k) IN [i \in 1..Len(sel) |-> sel[i].id]
 
-ValueOk(ins, k, v, stable) ==
-    LET t == Tokens(ins, k) IN
+SeqSet(s) == {s[i] : i \in 1..Len(s)}
+Zeros(s) == Len(SelectSeq(s, LAMBDA x : x = 0))
+
+\* mf = "concat": concatenation (empty values are invisible); mf = "join": values joined with a
+\* separator, so the output also shows where the empty values are
+ValueOk(ins, k, v, stable, mf) ==
+    LET t == IF mf = "join" THEN TokensAll(ins, k) ELSE Tokens(ins, k) IN
     IF stable THEN v = t
-    ELSE Len(v) = Len(t) /\ SeqSet(v) = SeqSet(t)      \* token ids are unique: a permutation
+    ELSE Len(v) = Len(t) /\ SeqSet(v) = SeqSet(t) /\ Zeros(v) = Zeros(t)   \* non-zero ids are unique: a permutation
 
 \* entries: sequence of [k, v]
-OutputOk(ins, entries, stable) ==
+OutputOk(ins, entries, stable, mf) ==
     /\ \A x \in 1..(Len(entries) - 1) : entries[x].k < entries[x + 1].k
     /\ {entries[x].k : x \in 1..Len(entries)} = KeysOf(ins)
-    /\ \A x \in 1..Len(entries) : ValueOk(ins, entries[x].k, entries[x].v, stable)
+    /\ \A x \in 1..Len(entries) : ValueOk(ins, entries[x].k, entries[x].v, stable, mf)
 
 \* C08: an entry is small relative to the budget
 Small(size, teff) == 4 * (size + 16) <= teff
